@@ -171,6 +171,7 @@ class C11(Prop):
                 cfgs.append((0, False, "none", "", str(nr - 1)))
                 cfgs.append((1, True, "none", "fwd", str(nr // 2)))
                 cfgs.append((2, False, "none", "", "grow"))
+                cfgs.append((3, True, "none", "", "grow"))
             # call history across objects: ANOTHER trace set (same events; communication and computation kernel names exchanged, operator
             # names changed, so equal ids mean different strings) is loaded and analysed first in the same interpreter; the outputs for the
             # set under test must not depend on it (an id of one symbol table says nothing about another table)
